@@ -59,11 +59,14 @@ Neigh(r) ==
     \cup {[r EXCEPT ![i] = s] : i \in 1..Len(r), s \in Sym}
     \cup {SubSeq(r, 1, i - 1) \o SubSeq(r, i + 1, Len(r)) : i \in 1..Len(r)}
     \cup {r \o <<":">> \o <<s>> : s \in Sym}
-Payloads(c) == BSeq(MaxLen) \cup Neigh(Right(c)) \cup {Right(c)}
+\* the same characters with the separator somewhere else (a comparison of the concatenation accepts these)
+Moved(c) == LET w == c.u \o c.p IN
+    {SubSeq(w, 1, k) \o <<":">> \o SubSeq(w, k + 1, Len(w)) : k \in 0..Len(w)} \ {Right(c)}
+Payloads(c) == BSeq(MaxLen) \cup Neigh(Right(c)) \cup Moved(c) \cup {Right(c)}
 RepPayloads(c) ==
     {Right(c), <<>>, c.u, c.u \o c.p, SubSeq(Right(c), 1, Len(Right(c)) - 1), Tail(Right(c)),
      Right(c) \o <<":">>, Right(c) \o <<":", "a">>, Right(c) \o <<"a">>, c.u \o <<":">>, <<":">> \o c.p,
-     c.p \o <<":">> \o c.u, c.u \o <<"a", ":">> \o c.p, <<"b">> \o Right(c)}
+     c.p \o <<":">> \o c.u, c.u \o <<"a", ":">> \o c.p, <<"b">> \o Right(c)} \cup Moved(c)
 
 Basic(e, pl) == [kind |-> "basic", enc |-> e, payload |-> pl]
 NonBasic(k) == [kind |-> k, enc |-> "clean", payload |-> <<>>]
